@@ -121,6 +121,9 @@ func CheckCrashImages(r *Runner, cp CrashParams, st *CrashStats) (v *Violation) 
 		allowed := []crashState{last}
 		if inProgress != nil && inProgress.OK {
 			allowed = append(allowed, crashState{txid: inProgress.TxID, state: inProgress.State})
+			for _, id := range inProgress.AltTxIDs {
+				allowed = append(allowed, crashState{txid: id, state: inProgress.State})
+			}
 		}
 
 		if spec.TornAt >= 0 {
